@@ -982,6 +982,10 @@ func (f *Frame) instrWrites(ins ssa.Instruction, set map[string]bool) {
 		f.callWrites(&x.Call, set)
 	case *ssa.Defer:
 		f.callWrites(&x.Call, set)
+	case *ssa.Next:
+		if rng, ok := x.Iter.(*ssa.Range); ok && x.IsString {
+			set[f.strIterRegion(rng)] = true
+		}
 	}
 	// ghost updates attached to sites: only those whose site pattern can fire at this
 	// instruction (or inside a callee that is executed in place at this instruction)
